@@ -257,13 +257,13 @@ def runOp (fn : String) (bufs : Array Buf) (args : List Arg) : String := runOpG 
 
 /-- spacing of the buffers of the long WRITER ops (round 3b) and the address of their malloc block -/
 def FBIG : Nat := 524288
-def FBLK : Nat := FBIG * 5
 
 def decodePtr (bufs : Array Buf) (a : Nat) : Option (Nat × Nat) := do
-  let i := a / FBIG - 1
-  if a < FBIG then none else
-  let b ← bufs[i]?
-  if a < b.addr then none else pure (i, a - b.addr)
+  -- the buffers are in increasing address order: the last one that starts at or below `a`
+  let k := (bufs.filter fun b => b.addr ≤ a).size
+  if k = 0 then none else
+  let b ← bufs[k - 1]?
+  pure (k - 1, a - b.addr)
 
 def sliceA (b : Array Byte) (off n : Nat) : Option (Array Byte) :=
   if off + n ≤ b.size then some (b.extract off (off + n)) else none
@@ -353,13 +353,14 @@ def specLong (fn : String) (bufs : Array Buf) (args : List Arg) : Option String 
 
 /-! ### round 3b: the long WRITERS run the LITERAL model in its linear-time form (Fast.lean: the definitions of
   Model.lean over an array of cells; Props.lean `*_linear_form`: they compute exactly what the model computes on
-  the memory the array stands for).  Buffers are 2^19 apart here, the malloc block of strdup/strndup is at 5 * 2^19;
+  the memory the array stands for).  Buffers are `spacing` apart here (a multiple of 2^19 that exceeds the longest
+  buffer, chosen per op in `opLine`), the malloc block of strdup/strndup lies behind the last buffer's slot;
   `specLong` above (the right-hand sides of the specification theorems on arrays) is kept as a cross-check: when it
   disagrees with the model the line gets the suffix ` !spec` and so differs from the implementation's. -/
 
 
-def mkCells (bufs : Array Buf) : AMem := Id.run do
-  let mut c : AMem := Array.replicate (FBIG * 6) none
+def mkCells (spacing : Nat) (bufs : Array Buf) : AMem := Id.run do
+  let mut c : AMem := Array.replicate (spacing * (bufs.size + 1)) none
   for b in bufs do
     for i in [0:b.data.size] do
       c := c.setIfInBounds (b.addr + i) (some b.data[i]!)
@@ -389,8 +390,9 @@ def blockOf (c : AMem) (p : Nat) : Array Byte := Id.run do
     | none => break
   return out
 
-def runFast (fn : String) (bufs : Array Buf) (args : List Arg) : Option String :=
-  let c := mkCells bufs
+def runFast (spacing : Nat) (fn : String) (bufs : Array Buf) (args : List Arg) : Option String :=
+  let c := mkCells spacing bufs
+  let FBLK := spacing * (bufs.size + 1)
   let base : Nat := match args with
     | Arg.ptr (some p) :: _ => p
     | _ => (bufs[0]?.map (·.addr)).getD 0
@@ -424,10 +426,11 @@ def runFast (fn : String) (bufs : Array Buf) (args : List Arg) : Option String :
 def longWriters : List String :=
   ["memcpy", "memmove", "memset", "strcpy", "strncpy", "strlcpy", "strcat", "strncat", "strdup", "strndup"]
 
-def runOpLong (fn : String) (bufs : Array Buf) (args : List Arg) : String :=
+def runOpLong (spacing : Nat) (fn : String) (bufs : Array Buf) (args : List Arg) : String :=
   if longWriters.contains fn then
-    let r := (runFast fn bufs args).getD "bad-op"
+    let r := (runFast spacing fn bufs args).getD "bad-op"
     -- cross-check with the right-hand side of the specification theorems
+    if bufs.any (fun b => b.data.size > 400000) then r else
     let sp := (specLong fn bufs args).getD "fault"
     if sp = r then r else r ++ " !spec"
   else runOpG true fn bufs args
@@ -460,11 +463,14 @@ def opLine (ws : List String) : Option String :=
       let fn := if big then (fn.drop 2).toString else fn
       let btoks := rest.takeWhile isBufTok
       let atoks := rest.dropWhile isBufTok
-      let spacing := if longWriters.contains fn then FBIG else BIG
-      let bufs ← (btoks.zipIdx).mapM fun (t, i) => if big then parseBufBig? spacing i t else parseBuf? i t
+      -- long ops: the contents are parsed first (address = alignment), then the buffers are laid out `spacing` apart
+      let bufs ← (btoks.zipIdx).mapM fun (t, i) => if big then parseBufBig? 0 i t else parseBuf? i t
       let bufs := bufs.toArray
+      let longest := bufs.foldl (fun mx b => max mx (b.addr + b.data.size)) 0
+      let spacing := if longWriters.contains fn then FBIG * ((longest + 64) / FBIG + 1) else BIG
+      let bufs := if big then bufs.mapIdx fun i b => { b with addr := spacing * (i + 1) + b.addr } else bufs
       let args ← atoks.mapM (parseArg? bufs)
-      pure (if big then runOpLong fn bufs args else runOp fn bufs args)
+      pure (if big then runOpLong spacing fn bufs args else runOp fn bufs args)
   | _ => none
 
 def stepLine (_ : Unit) (line : String) : Unit × String :=
